@@ -57,6 +57,7 @@ pub fn history_props(id: &str) -> Option<HistoryProp> {
             tiers: vec![
                 HistoryTier { label: "C01-small", gen: GenCfg::small(), quick: 6000, thorough: 120_000 },
                 HistoryTier { label: "C01-medium", gen: GenCfg { avail_mem: medium_mem(), ..GenCfg::medium() }, quick: 300, thorough: 5000 },
+                HistoryTier { label: "C01-large", gen: gen_large(), quick: 0, thorough: 160 },
             ],
             nontrivial: |h, st| st.get("builds_ok") >= 2 && has_delete_or_overwrite_between_builds(h, st) && st.get("has_split") > 0,
             assumptions: base_assume,
@@ -71,6 +72,7 @@ pub fn history_props(id: &str) -> Option<HistoryProp> {
             tiers: vec![
                 HistoryTier { label: "C02-small", gen: GenCfg::small(), quick: 5000, thorough: 100_000 },
                 HistoryTier { label: "C02-medium", gen: GenCfg { avail_mem: medium_mem(), ..GenCfg::medium() }, quick: 250, thorough: 4000 },
+                HistoryTier { label: "C02-large", gen: gen_large(), quick: 0, thorough: 120 },
             ],
             nontrivial: |_h, st| st.get("builds_ok") >= 2 && st.get("has_split") > 0 && st.get("exact_count_ge2") > 0,
             assumptions: base_assume,
@@ -194,6 +196,12 @@ pub fn history_props(id: &str) -> Option<HistoryProp> {
                     thorough: 4000,
                 },
                 HistoryTier {
+                    label: "C14-large",
+                    gen: GenCfg { first_ops: (900, 2200), later_ops: (100, 900), id_pool: (1500, 3000), ..gen_c14() },
+                    quick: 0,
+                    thorough: 300,
+                },
+                HistoryTier {
                     label: "C14-small",
                     gen: GenCfg {
                         avail_mem: vec![(3, vec![None]), (2, vec![Some(0), Some(1), Some(4096), Some(3 * 4096), Some(40960), Some(1 << 40), Some(usize::MAX)])],
@@ -251,6 +259,25 @@ pub fn history_props(id: &str) -> Option<HistoryProp> {
             assumptions: base_assume,
         }),
         _ => None,
+    }
+}
+
+/// 2-5 thousand items, dimensions up to 130, one or two rounds (thorough tiers only).
+fn gen_large() -> GenCfg {
+    GenCfg {
+        dims: vec![(2, vec![4, 16]), (2, vec![64, 65]), (1, vec![130])],
+        max_indexes: 1,
+        rounds: (1, 2),
+        first_ops: (2000, 5000),
+        later_ops: (100, 1500),
+        id_pool: (3000, 6000),
+        threads: vec![4, 8, 16],
+        op_weights: [85, 14, 1, 0, 0],
+        avail_mem: medium_mem(),
+        n_trees: vec![(2, vec![None]), (3, vec![Some(1), Some(2), Some(5)])],
+        abort_pct: 0,
+        build_pct: 100,
+        ..GenCfg::medium()
     }
 }
 
@@ -313,7 +340,16 @@ pub fn run_history_prop(p: HistoryProp, tier: Tier) -> i32 {
     let cfg = p.cfg.clone();
     let nontrivial = p.nontrivial;
     for t in &p.tiers {
-        let cases = tier.pick(t.quick, t.thorough);
+        let mut cases = tier.pick(t.quick, t.thorough);
+        // developer knobs (not used by the registered commands): run one engine only / another case count
+        if let Ok(f) = std::env::var("VERIF_TIER_FILTER") {
+            if f != t.label {
+                continue;
+            }
+            if let Some(n) = std::env::var("VERIF_CASES").ok().and_then(|s| s.parse().ok()) {
+                cases = n;
+            }
+        }
         if cases == 0 {
             continue;
         }
